@@ -55,6 +55,7 @@ type Frame struct {
 	phiCells map[*ssa.Phi]*Cell
 	cells    map[*ssa.Alloc]*Cell // local allocs (current incarnation)
 	named    map[string][]*Cell   // source-named locals (several declarations may share a name), in source order
+	namedHeap map[string]PtrV     // source-named locals that escape (allocated on the heap): the latest allocation
 	depth    int
 	loopOrd  map[*ssa.BasicBlock]int
 	params   map[string]Value // entry values
@@ -1100,6 +1101,12 @@ func (ex *Exec) execAlloc(fr *Frame, st *State, x *ssa.Alloc) {
 		l := Loc{Kind: LHeap, Root: et, Ref: r, Ty: et}
 		st.store(l, zeroValue(et))
 		fr.regs[x] = PtrV{l, x.Type()}
+		if x.Comment != "" {
+			if fr.namedHeap == nil {
+				fr.namedHeap = map[string]PtrV{}
+			}
+			fr.namedHeap[x.Comment] = PtrV{l, x.Type()}
+		}
 		return
 	}
 	name := x.Comment
